@@ -30,6 +30,7 @@ class Tasks:
         self.sim, self.call_no, self.n, self.fn, self.fail_at = sim, call_no, n, fn, fail_at
         self.slow_at, self.slow_until = slow_at, slow_until      # a lazy producer that is slow at one item
         self.iter_raises = iter_raises
+        self.fail_base = False
         self.i = 0
         self.busy = False
         self.log = log if log is not None else []
@@ -59,7 +60,7 @@ class Tasks:
                     self.log.append(("consumer-blocked", self.call_no, self.i, len(sim.events), sim.n_tasks_finished))
             if self.fail_at is not None and self.i == self.fail_at:
                 self.log.append(("iter-raise", self.call_no, self.i))
-                raise IterError("iterator failed at %d" % self.i)
+                raise (IterBaseError if self.fail_base else IterError)("iterator failed at %d" % self.i)
             if self.i >= self.n:
                 raise StopIteration
             i = self.i
@@ -336,6 +337,7 @@ def run(cfg, sched):
                                   slow_until=((lambda: False) if c.get("slow_kind") == "forever" else
                                               (lambda: bool(p._aborting))) if c.get("slow_at") is not None else None)
                     rec["tasks"] = tasks
+                    tasks.fail_base = bool(c.get("iter_fail_base"))
                     try:
                         if cfg.get("return_as", "list") == "list":
                             rec["result"] = p(tasks)
